@@ -337,6 +337,9 @@ func c03Impl(c *Ctx, im setImpl) {
 									stop = true
 								}
 							}
+							if t.Key() == e.Res.Key() && pol && p.End != EndLoopBack {
+								ok, why = false, "stops although the callback returned true: the remaining members are never visited"
+							}
 						}
 						if !(len(e.Args) == 1 && e.Args[0].Op == "extract" && e.Args[0].N == 1) {
 							ok, why = false, "the callback does not get the member"
